@@ -2,6 +2,9 @@ package main
 
 import (
 	"fmt"
+	"go/token"
+	"go/types"
+	"regexp"
 	"sort"
 	"strings"
 
@@ -415,8 +418,21 @@ func currentEventUses(p *Prog) []constUse {
 func runC06Streets(c *Ctx, ea *engineAnchors, eg *EventGraph, handlerOut map[string][]outcome) {
 	p := c.P
 	ix := p.Index()
-	// the street sequencer: the function with a switch on Status.Round whose cases lead to stores of Status.Round
-	var seq *ssa.Function
+	// the street sequencer: the function that reads Status.Round and, depending on it, leads to stores
+	// of at least two different streets (directly, through the Enter* functions, or through helpers
+	// that take the street as a parameter: outcomes are read with the call's arguments)
+	roundStores := func(o outcome) []string {
+		var out []string
+		for _, ps := range o.Chain {
+			for _, e := range ps.Events {
+				if e.Kind == "store" && e.FKey == "pokerface.Status.Round" && isQuoted(e.Val.String()) {
+					out = append(out, strings.Trim(e.Val.String(), `"`))
+				}
+			}
+		}
+		return out
+	}
+	var cands []*ssa.Function
 	for _, fn := range p.MethodsOf("pokerface", ea.gameImpl) {
 		fi := ix.Info[fn]
 		readsRound := false
@@ -425,26 +441,33 @@ func runC06Streets(c *Ctx, ea *engineAnchors, eg *EventGraph, handlerOut map[str
 				readsRound = true
 			}
 		}
-		if !readsRound {
+		if !readsRound || !eg.MayEmit[fn] {
 			continue
 		}
-		// direct callees that store Round
-		n := 0
-		for _, cc := range fi.Calls {
-			for _, t := range ix.targets(fn, cc) {
-				for _, w := range ix.Info[t].Writes {
-					if w.Key == "pokerface.Status.Round" {
-						n++
-					}
-				}
+		streets := map[string]bool{}
+		for _, o := range eg.Outcomes(fn) {
+			for _, st := range roundStores(o) {
+				streets[st] = true
 			}
 		}
-		if n >= 2 {
+		if len(streets) >= 2 {
+			cands = append(cands, fn)
+		}
+	}
+	var seq *ssa.Function
+	for _, f := range cands {
+		inner := true
+		for _, g := range cands {
+			if g != f && ix.Info[f].TCalls[g] {
+				inner = false // f only reaches the streets through g
+			}
+		}
+		if inner {
 			if seq != nil {
-				c.undecided("street-chain", "sequencer", "-", "several street sequencer candidates: "+fnKey(seq)+", "+fnKey(fn))
+				c.undecided("street-chain", "sequencer", "-", "several street sequencer candidates: "+fnKey(seq)+", "+fnKey(f))
 				return
 			}
-			seq = fn
+			seq = f
 		}
 	}
 	if seq == nil {
@@ -457,14 +480,16 @@ func runC06Streets(c *Ctx, ea *engineAnchors, eg *EventGraph, handlerOut map[str
 	var problems []string
 	for _, o := range eg.Outcomes(seq) {
 		from := ""
-		for _, cd := range o.Chain[0].Conds {
-			if cd.V.K == KAtom && cd.V.At.Op == "is" && !cd.V.Neg {
-				l, r := cd.V.At.L, cd.V.At.R
-				if r == "GS.Status.Round" && isQuoted(l) {
-					from = strings.Trim(l, `"`)
-				}
-				if l == "GS.Status.Round" && isQuoted(r) {
-					from = strings.Trim(r, `"`)
+		for _, cps := range o.Chain {
+			for _, cd := range cps.Conds {
+				if cd.V.K == KAtom && cd.V.At.Op == "is" && !cd.V.Neg && from == "" {
+					l, r := cd.V.At.L, cd.V.At.R
+					if r == "GS.Status.Round" && isQuoted(l) {
+						from = strings.Trim(l, `"`)
+					}
+					if l == "GS.Status.Round" && isQuoted(r) {
+						from = strings.Trim(r, `"`)
+					}
 				}
 			}
 		}
@@ -475,13 +500,9 @@ func runC06Streets(c *Ctx, ea *engineAnchors, eg *EventGraph, handlerOut map[str
 		switch o.Kind {
 		case "emit":
 			to = "emit:" + o.Event
-			// did the callee store a street first?
-			if o.In != seq && len(o.Chain) == 2 {
-				for _, e := range o.Path.Events {
-					if e.Kind == "store" && e.FKey == "pokerface.Status.Round" {
-						to = strings.Trim(e.Val.String(), `"`) + " then " + o.Event
-					}
-				}
+			// did a callee store a street first?
+			if sts := roundStores(o); len(sts) > 0 {
+				to = sts[len(sts)-1] + " then " + o.Event
 			}
 		default:
 			to = o.Kind + ":" + o.Err
@@ -556,39 +577,74 @@ func runC06Streets(c *Ctx, ea *engineAnchors, eg *EventGraph, handlerOut map[str
 		c.check(okS, "street-chain", fnKey(caller)+"#forwards-known-streets", p.FnPos(caller), "forwards exactly the four streets to the sequencer", fmt.Sprintf("forwards %v", sortedSet(streets)))
 	}
 	// the only other stores to Round: "preflop", from the Prepared / AntePaid handlers only
+	var checkStore func(w *ssa.Function, val, pos string, depth int)
+	checkStore = func(w *ssa.Function, val, pos string, depth int) {
+		switch val {
+		case "flop", "turn", "river":
+			// must be reached from the sequencer only (directly, or through the sequencer's own helper)
+			callers := ix.Callers(w)
+			okc := len(callers) >= 1
+			for _, cl := range callers {
+				if cl != seq && !(ix.Info[seq].TCalls[cl] && privateHelper(seq, cl)) {
+					okc = false
+				}
+			}
+			c.check(okc, "street-chain", fnKey(w)+"#store-Round", pos, "street "+val+" entered only from the sequencer", "street "+val+" can be entered from "+fnNames(callers))
+		case "preflop":
+			callers := ix.Callers(w)
+			var names []string
+			okc := len(callers) > 0
+			for _, cl := range callers {
+				names = append(names, cl.Name())
+				isStartChain := false
+				for _, ev := range []string{"GameEvent_Prepared", "GameEvent_AntePaid"} {
+					if eg.Handler[ev] == cl {
+						isStartChain = true
+					}
+				}
+				if !isStartChain {
+					okc = false
+				}
+			}
+			c.check(okc, "street-chain", fnKey(w)+"#store-Round", pos, "preflop entered only from the Prepared/AntePaid handlers", "preflop can be (re-)entered from "+strings.Join(names, ","))
+		default:
+			// a helper that is handed the street: each caller's constant argument is the store
+			if strings.HasPrefix(val, "param:") && depth < 2 {
+				idx := -1
+				for i, prm := range w.Params {
+					if "param:"+prm.Name() == val {
+						idx = i
+					}
+				}
+				resolved := idx >= 0 && len(ix.Callers(w)) > 0
+				for _, cl := range ix.Callers(w) {
+					for _, cs := range ix.CallSites(cl, w) {
+						args := cs.Common().Args
+						if idx >= len(args) {
+							resolved = false
+							continue
+						}
+						if sv, ok := constString(args[idx]); ok {
+							checkStore(cl, sv, p.InstrPos(cs.(ssa.Instruction)), depth+1)
+						} else {
+							resolved = false
+						}
+					}
+				}
+				if resolved {
+					return
+				}
+			}
+			c.bad("street-chain", fnKey(w)+"#store-Round", pos, "stores unknown street "+val)
+		}
+	}
 	for _, w := range ix.Writers("pokerface.Status.Round") {
 		c.touch(fnKey(w))
 		s := eg.summ(0)
 		paths, _ := s.Function(w)
 		for _, ps := range paths {
 			for _, e := range ps.storesTo("pokerface.Status.Round") {
-				val := strings.Trim(e.Val.String(), `"`)
-				switch val {
-				case "flop", "turn", "river":
-					// must be called from the sequencer only
-					callers := ix.Callers(w)
-					okc := len(callers) == 1 && callers[0] == seq
-					c.check(okc, "street-chain", fnKey(w)+"#store-Round", e.Pos, "street "+val+" entered only from the sequencer", "street "+val+" can be entered from "+fnNames(callers))
-				case "preflop":
-					callers := ix.Callers(w)
-					var names []string
-					okc := len(callers) > 0
-					for _, cl := range callers {
-						names = append(names, cl.Name())
-						isStartChain := false
-						for _, ev := range []string{"GameEvent_Prepared", "GameEvent_AntePaid"} {
-							if eg.Handler[ev] == cl {
-								isStartChain = true
-							}
-						}
-						if !isStartChain {
-							okc = false
-						}
-					}
-					c.check(okc, "street-chain", fnKey(w)+"#store-Round", e.Pos, "preflop entered only from the Prepared/AntePaid handlers", "preflop can be (re-)entered from "+strings.Join(names, ","))
-				default:
-					c.bad("street-chain", fnKey(w)+"#store-Round", e.Pos, "stores unknown street "+e.Val.String())
-				}
+				checkStore(w, strings.Trim(e.Val.String(), `"`), e.Pos, 0)
 			}
 		}
 	}
@@ -616,6 +672,7 @@ func runC06Start(c *Ctx, ea *engineAnchors, eg *EventGraph, outs []outcome) {
 	nEmit := 0
 	var bad []string
 	tests := map[string]bool{}
+	dealerField := ""
 	for _, ps := range paths {
 		emits := false
 		for _, e := range ps.Events {
@@ -647,6 +704,9 @@ func runC06Start(c *Ctx, ea *engineAnchors, eg *EventGraph, outs []outcome) {
 			str := cd.V.At.String()
 			if cd.V.At.Op == "is" && cd.V.Neg && strings.Contains(str, "recv.dealer") && strings.Contains(str, "nil") {
 				hasDealer = true
+				if m := recvFieldRe.FindStringSubmatch(str); m != nil {
+					dealerField = m[1]
+				}
 			}
 		}
 		for _, e := range ps.Events {
@@ -696,6 +756,11 @@ func runC06Start(c *Ctx, ea *engineAnchors, eg *EventGraph, outs []outcome) {
 	}
 	if !okLoop {
 		bad = append(bad, "no full-range loop over the players refusing Bankroll <= 0")
+	}
+	// the nil test of an interface-typed field is a test only when nothing stores a typed
+	// pointer that may be nil into it (a nil *T in an interface is not == nil)
+	if dealerField != "" {
+		bad = append(bad, typedNilStores(c, "pokerface."+ea.gameImpl+"."+dealerField)...)
 	}
 	c.floor("start-validation", "refusing tests before the first emit", len(tests), 4)
 	c.check(len(bad) == 0 && nEmit > 0, "start-validation", fnKey(start), p.FnPos(start), "the emit of Started is dominated by: "+strings.Join(sortedSet(tests), ", "), "a hand can start without the preconditions", uniq(bad, 6)...)
@@ -773,4 +838,128 @@ func runC06Close(c *Ctx, ea *engineAnchors, eg *EventGraph, handlerOut map[strin
 	}
 	termSym := eg.Symbols[terminal]
 	c.check(len(guardOwner[termSym]) == 0, "result-before-close", "terminal-accepts-nothing", "-", fmt.Sprintf("no operation is guarded by %q", termSym), fmt.Sprintf("operations %v accept the closed hand", guardOwner[termSym]))
+}
+
+var recvFieldRe = regexp.MustCompile(`recv\.(\w+)`)
+
+// typedNilStores lists the stores into the interface-typed field key whose value wraps a
+// pointer that is not known to be non-nil at the store.
+func typedNilStores(c *Ctx, key string) []string {
+	ix := c.P.Index()
+	var out []string
+	for _, w := range ix.AnyWriters(key) {
+		for _, in := range ix.WriteInstrs(w, key) {
+			st, ok := in.(*ssa.Store)
+			if !ok {
+				continue
+			}
+			mi, ok := st.Val.(*ssa.MakeInterface)
+			if !ok {
+				continue
+			}
+			if _, isPtr := mi.X.Type().Underlying().(*types.Pointer); !isPtr {
+				continue
+			}
+			if !nonNilPtr(ix, mi.X, st.Block(), 0, map[ssa.Value]bool{}) {
+				out = append(out, fmt.Sprintf("%s stores a %s that may be nil into the interface field %s (%s): the nil test never fires", fnKey(w), mi.X.Type(), key, c.P.InstrPos(in)))
+			}
+		}
+	}
+	sort.Strings(out)
+	return out
+}
+
+// nonNilPtr: v is a fresh allocation, the address of something, a merge of such values, the
+// result of a function all of whose returns are such values, or tested against nil on the
+// way to block at.
+func nonNilPtr(ix *Index, v ssa.Value, at *ssa.BasicBlock, depth int, seen map[ssa.Value]bool) bool {
+	if seen[v] {
+		return true
+	}
+	seen[v] = true
+	switch x := v.(type) {
+	case *ssa.Alloc, *ssa.FieldAddr, *ssa.IndexAddr, *ssa.Global, *ssa.Function, *ssa.MakeClosure:
+		return true
+	case *ssa.Phi:
+		for _, e := range x.Edges {
+			if !nonNilPtr(ix, e, nil, depth, seen) {
+				return nilTestedBefore(v, at)
+			}
+		}
+		return true
+	case *ssa.Parameter:
+		// every call site passes a non-nil pointer
+		fn := x.Parent()
+		pi := -1
+		for i, pp := range fn.Params {
+			if pp == x {
+				pi = i
+			}
+		}
+		callers := ix.Callers(fn)
+		if pi >= 0 && depth < 3 && len(callers) > 0 {
+			all := true
+			for _, cl := range callers {
+				for _, site := range ix.CallSites(cl, fn) {
+					cc := site.Common()
+					if cc.IsInvoke() || cc.StaticCallee() != fn || pi >= len(cc.Args) {
+						all = false
+						continue
+					}
+					if !nonNilPtr(ix, cc.Args[pi], site.Block(), depth+1, map[ssa.Value]bool{}) {
+						all = false
+					}
+				}
+			}
+			if all {
+				return true
+			}
+		}
+	case *ssa.Call:
+		if callee := x.Call.StaticCallee(); callee != nil && len(callee.Blocks) > 0 && depth < 3 && callee.Signature.Results().Len() == 1 {
+			all := true
+			for _, b := range callee.Blocks {
+				if r, ok := b.Instrs[len(b.Instrs)-1].(*ssa.Return); ok {
+					if !nonNilPtr(ix, r.Results[0], b, depth+1, map[ssa.Value]bool{}) {
+						all = false
+					}
+				}
+			}
+			if all {
+				return true
+			}
+		}
+	}
+	return nilTestedBefore(v, at)
+}
+
+// nilTestedBefore: block at is dominated by the non-nil branch of a test of v.
+func nilTestedBefore(v ssa.Value, at *ssa.BasicBlock) bool {
+	if at == nil {
+		return false
+	}
+	for d := at.Idom(); d != nil; d = d.Idom() {
+		iff, ok := d.Instrs[len(d.Instrs)-1].(*ssa.If)
+		if !ok {
+			continue
+		}
+		bo, ok := iff.Cond.(*ssa.BinOp)
+		if !ok || (bo.Op != token.NEQ && bo.Op != token.EQL) {
+			continue
+		}
+		isNil := func(x ssa.Value) bool { k, ok := x.(*ssa.Const); return ok && k.IsNil() }
+		if !((bo.X == v && isNil(bo.Y)) || (bo.Y == v && isNil(bo.X))) {
+			continue
+		}
+		succ := d.Succs[0]
+		if bo.Op == token.EQL {
+			succ = d.Succs[1]
+		}
+		if succ == at || succ.Dominates(at) {
+			if len(succ.Preds) == 1 {
+				return true
+			}
+		}
+	}
+	return false
 }
